@@ -8,6 +8,7 @@ pub mod asyncshadow;
 pub mod mupshadow;
 pub mod node;
 pub mod onchain;
+pub mod openfork;
 pub mod run;
 pub mod sim;
 pub mod taps;
